@@ -215,41 +215,7 @@ func runC13(c *Ctx) {
 	}
 	c.floor("C13.2", "stores to KessokuProvide.FuncExpr", nProv, 4)
 
-	// ---- C13.3 the by-name lookup is confined to the implementation's package
-	if tb := resolveRole(c, migPkg, "(*Transformer).transformBind"); tb != nil {
-		c.seen(fnName(tb))
-		n := 0
-		for _, cs := range callsIn(tb) {
-			if cs.callee != "(*go/types.Scope).Lookup" {
-				continue
-			}
-			n++
-			s := newSym(L, map[string]bool{})
-			s.maxD = 0
-			recv := strings.Join(s.eval(cs.arg(0)), " | ")
-			okRecv := true
-			for _, alt := range strings.Split(recv, " | ") {
-				if !(strings.HasPrefix(alt, "(*go/types.Package).Scope((*go/types.") && strings.Contains(alt, ").Pkg(") && strings.Contains(alt, "(*go/types.Named).Obj(")) {
-					okRecv = false
-				}
-			}
-			c.check(okRecv, "C13.3", "transformBind:lookup-scope", L.pos(cs.instr.Pos()), "the constructor for a bound implementation is looked up only in that implementation type's own package", recv)
-			// and the result must be a function
-		}
-		c.floor("C13.3", "scope lookups in transformBind", n, 1)
-		// the found object is checked to be a function before use
-		okFunc := false
-		for _, b := range tb.Blocks {
-			for _, in := range b.Instrs {
-				if ta, ok := in.(*ssa.TypeAssert); ok && ta.CommaOk && strings.HasSuffix(ta.AssertedType.String(), "go/types.Func") {
-					okFunc = true
-				}
-			}
-		}
-		c.check(okFunc, "C13.3", "transformBind:constructor-is-func", L.pos(tb.Pos()), "the looked-up constructor must be a function, else migration fails", "comma-ok assertion to *types.Func")
-	} else {
-		c.undecided("C13.3", "transformBind", "not found")
-	}
+	ruleBindConstructor(c, "C13.3")
 
 	// ---- C13.4 type keys
 	migTypeKeys(c, "C13.4")
@@ -392,10 +358,14 @@ func runC14(c *Ctx) {
 	// load errors are checked for every package before patterns are extracted
 	if mf := resolveRole(c, migPkg, "(*Migrator).MigrateFiles"); mf != nil {
 		okLoad := false
-		for _, cs := range callsIn(mf) {
-			if cs.callee == "golang.org/x/tools/go/packages.Load" && cs.value() != nil {
-				if ok, _ := errorBranchReturnsNonNil(cs.value()); ok {
-					okLoad = true
+		for _, f2 := range family(L, mf) {
+			for _, cs := range callsIn(f2) {
+				if cs.callee == "golang.org/x/tools/go/packages.Load" && cs.value() != nil {
+					if ok, _ := errorBranchReturnsNonNil(cs.value()); ok {
+						okLoad = true
+						// loaded in a helper: the helper's own error must be handed on by MigrateFiles (C14.1 propagation rule
+						// checks every fallible call of the pipeline, the helper included)
+					}
 				}
 			}
 		}
@@ -809,4 +779,46 @@ func lastElem(p string) string {
 		return p[i+1:]
 	}
 	return p
+}
+
+// ruleBindConstructor: the by-name constructor lookup of wire.Bind is confined to the implementation's package and its result
+// is only used as a function.
+func ruleBindConstructor(c *Ctx, rule string) {
+	L := c.L
+	// ---- C13.3 the by-name lookup is confined to the implementation's package
+	if tb := resolveRole(c, migPkg, "(*Transformer).transformBind"); tb != nil {
+		c.seen(fnName(tb))
+		n := 0
+		for _, cs := range callsIn(tb) {
+			if cs.callee != "(*go/types.Scope).Lookup" {
+				continue
+			}
+			n++
+			s := newSym(L, map[string]bool{})
+			s.maxD = 0
+			recv := strings.Join(s.eval(cs.arg(0)), " | ")
+			okRecv := true
+			for _, alt := range strings.Split(recv, " | ") {
+				if !(strings.HasPrefix(alt, "(*go/types.Package).Scope((*go/types.") && strings.Contains(alt, ").Pkg(") && strings.Contains(alt, "(*go/types.Named).Obj(")) {
+					okRecv = false
+				}
+			}
+			c.check(okRecv, rule, "transformBind:lookup-scope", L.pos(cs.instr.Pos()), "the constructor for a bound implementation is looked up only in that implementation type's own package", recv)
+			// and the result must be a function
+		}
+		c.floor(rule, "scope lookups in transformBind", n, 1)
+		// the found object is checked to be a function before use
+		okFunc := false
+		for _, b := range tb.Blocks {
+			for _, in := range b.Instrs {
+				if ta, ok := in.(*ssa.TypeAssert); ok && ta.CommaOk && strings.HasSuffix(ta.AssertedType.String(), "go/types.Func") {
+					okFunc = true
+				}
+			}
+		}
+		c.check(okFunc, rule, "transformBind:constructor-is-func", L.pos(tb.Pos()), "the looked-up constructor must be a function, else migration fails", "comma-ok assertion to *types.Func")
+	} else {
+		c.undecided(rule, "transformBind", "not found")
+	}
+
 }
